@@ -453,6 +453,25 @@ def lemma_items(prop, which):
                     _viol(res, sc, prop, 'lemma-clone-identity', 'clone points to another allocation')
             res['extra'].setdefault('lemma_paths', {}).setdefault('clone', []).append(out[0])
         mk('clone', [{'op': 'new', 'obj': 0, 'as': 'h'}, {'op': 'set_strong', 'h': 'h', 'v': 's'}, {'op': 'clone', 'h': 'h', 'as': 'c'}], post)
+    if 'upgrade' in which:
+        def post(sc, out, res):
+            s = sc.symvars['s']
+            dead = z3.Or(s == 0, s == MASK)
+            tr = [t for t in sc.trace if t[0] == 'ret' and t[1] == 'upgrade']
+            if out[0] == 'abort':
+                if sc.E.check(s != MASK - 1):
+                    _viol(res, sc, prop, 'lemma-upgrade-abort', 'Weak::upgrade aborts for a strong counter other than MAX-1', s != MASK - 1)
+            elif out[0] == 'ok' and tr:
+                if tr[0][2] == 'none':
+                    if sc.E.check(z3.Not(dead)):
+                        _viol(res, sc, prop, 'lemma-upgrade-none-live', 'Weak::upgrade returns None although the strong counter is neither 0 nor the destroyed mark', z3.Not(dead))
+                else:
+                    if sc.E.check(z3.Or(dead, s == MASK - 1)):
+                        _viol(res, sc, prop, 'lemma-upgrade-sentinel', 'Weak::upgrade returns a handle at a sentinel counter value (0, MAX-1 or MAX)', z3.Or(dead, s == MASK - 1))
+                    if sc.E.check(bv(sc.strong(0)) != s + 1):
+                        _viol(res, sc, prop, 'lemma-upgrade-adds-one', 'Weak::upgrade does not add exactly one to the strong counter', bv(sc.strong(0)) != s + 1)
+        mk('upgrade', [{'op': 'new', 'obj': 0, 'as': 'h'}, {'op': 'downgrade', 'h': 'h', 'as': 'x'}, {'op': 'set_strong', 'h': 'h', 'v': 's'},
+                       {'op': 'upgrade', 'w': 'x', 'as': 'u'}], post)
     if 'downgrade' in which:
         def post(sc, out, res):
             w = sc.symvars['w']
@@ -641,7 +660,7 @@ def panic_weak_items(prop, tier, seed):
 
 def items_C05(tier, seed, P):
     return (weak_graph_items('C05', tier, seed, {'C05'}, opts={'panics_ok': True}) + consume_weak_items('C05', tier, seed)
-            + panic_weak_items('C05', tier, seed) + weak_api_items('C05', tier, seed, {'C05'}) + lemma_items('C05', ['downgrade', 'weakdrop']))
+            + panic_weak_items('C05', tier, seed) + weak_api_items('C05', tier, seed, {'C05'}) + lemma_items('C05', ['downgrade', 'weakdrop', 'upgrade']))
 
 
 PROPS['C05'] = dict(items=items_C05, bounds=BOUNDS_GRAPH, outside=OUTSIDE, vacuity=vac_paths('dtor', 'multi_destroy_ops', 'upgrade:some', 'upgrade:none', 'try_unwrap:ok', 'make_mut:moved'), replay_oracles=['C05'])
